@@ -86,6 +86,8 @@ def ref_outcome(g, s, cfg, emulate=()):
         rp = RefParser(g, s, cfg.get('skipws', True), cfg.get('ws'), emulate=emulate,
                        ignore_case=cfg.get('ignore_case', False), autokwd=cfg.get('autokwd', False))
         tree = rp.run()
+        # every terminal of the derivation, suppressed ones included: (start, end, kind, text)
+        tree.terminals = list(rp.tlog)
         b = Builder(g, cfg.get('auto_init_attributes', True), cfg.get('use_regexp_group', False), emulate=emulate)
         return ('ok', dump_ref(b.value(tree))), tree
     except Fail:
